@@ -7,5 +7,5 @@ Extraction "C04_model.ml" wire_anchor
   view_of str_find_m str_rfind_m str_find_first_of_m str_find_first_not_of_m str_find_last_of_m
   str_find_last_not_of_m str_rfind_default_m str_find_last_of_default_m str_find_last_not_of_default_m
   str_compare_m str_compare5_m copy_m
-  spec_step spec_run s_substr
+  spec_step spec_step_fits spec_run s_substr
   find_s rfind_s find_first_of_s find_first_not_of_s find_last_of_s find_last_not_of_s compare_s compare5_s.
